@@ -74,7 +74,7 @@ class C07(Harness):
         "scoring := callable returning an asymmetric uninterpreted function S(y_true..., y_pred...)",
         "time.time := real clock (values ignored)",
     )
-    assumptions = ("start_with_window=True (enforced by evaluate)", "window_length, step_length >= 1, fh strictly increasing out-of-sample")
+    assumptions = ("integer time index with arbitrary spacing g >= 1 (RangeIndex or Int64Index)", "start_with_window=True (enforced by evaluate)", "window_length, step_length >= 1, fh strictly increasing out-of-sample")
     outside = ("series longer than the stated n", "fit_params passing")
 
     def bounds(self, tier):
@@ -97,6 +97,8 @@ class C07(Harness):
         ctx.assume((n >= 2) & (n <= N))
         nn = int(n)
         inp = {"n": nn, "s0": ctx.fresh_int("s0"), "y": fresh_reals(ctx, "y", nn)}
+        inp["g"] = ctx.fresh_int("g")  # spacing of the integer time index (labels s0, s0+g, s0+2g, ...)
+        ctx.assume(inp["g"] >= 1)
         inp["wl"] = ctx.fresh_int("wl")
         ctx.assume(inp["wl"] >= 1)
         if cell["kind"] != "single":
@@ -113,6 +115,9 @@ class C07(Harness):
             inp["x"] = fresh_reals(ctx, "x", nn)
         inp["return_data"] = bool(ctx.fresh_bool("return_data"))
         inp["prefitted"] = bool(ctx.fresh_bool("prefitted"))  # the forecaster handed to evaluate() was fitted on the whole series before
+        inp["range_index"] = inp["prefitted"] == inp["return_data"]
+        if inp["range_index"]:
+            ctx.assume(inp["g"] == 1)  # (a symbolic RangeIndex step makes the length computation nonlinear: spaced labels use an Int64Index)
         return inp
 
     def scenario(self, W, inp, cell):
@@ -121,7 +126,11 @@ class C07(Harness):
         ev = W.load(EVAL)
         sp = W.load(SPLIT)
         n, s0 = inp["n"], inp["s0"]
-        idx = pd.RangeIndex(s0, s0 + n)
+        g = inp["g"]
+        if inp["range_index"]:
+            idx = pd.RangeIndex(s0, s0 + n)
+        else:
+            idx = pd.Index([s0 + g * i for i in range(n)])
         y = pd.Series(inp["y"], index=idx)
         X = pd.DataFrame({"x": inp["x"]}, index=idx) if cell["withX"] else None
         fh = np.array(inp["fh"])
@@ -157,6 +166,8 @@ class C07(Harness):
     def oracle(self, P, inp, out, cell):
         W = self._curW
         n, s0, y, fh = inp["n"], inp["s0"], inp["y"], inp["fh"]
+        g = inp["g"]
+        lab_of = lambda p: s0 + g * (int(p) if P.sym else p)  # noqa: E731  label of position p (positions are path-determined integers)
         hK = fh[-1]
         if cell["kind"] == "single":
             fits = True
@@ -182,7 +193,7 @@ class C07(Harness):
         P.check("predict-test-points", all(seq[2 * i] in ("fit", "update") and seq[2 * i + 1] == "predict" for i in range(len(splits))))
         seen_max = None
         for i, ((tr, te), row) in enumerate(zip(splits, rows)):
-            c = s0 + tr[-1]
+            c = lab_of(tr[-1])
             P.eq("cutoff", row["cutoff"], c)
             P.eq("len-train-window", row["len"], len(tr))
             call = fitcalls[i]
@@ -191,42 +202,42 @@ class C07(Harness):
             P.check(lab, call["op"] == want_op and len(call["idx"]) == len(tr))
             if len(call["idx"]) == len(tr):
                 for a, p, v in zip(call["idx"], tr, call["vals"]):
-                    P.eq(lab, a, s0 + p)
+                    P.eq(lab, a, lab_of(p))
                     P.eq(lab, v, y[int(p)] if P.sym else y[p])
             # leakage: everything handed over so far is strictly before this fold's first test label
-            P.check("no-leakage", call["idx"][-1] < s0 + te[0])
+            P.check("no-leakage", call["idx"][-1] < lab_of(te[0]))
             for e in fitcalls[: i + 1]:
-                P.check("no-leakage", e["idx"][-1] < s0 + te[0])
+                P.check("no-leakage", e["idx"][-1] < lab_of(te[0]))
             pr = preds[i]
             P.check("predict-test-points", len(pr["labels"]) == len(te))
             for a, p in zip(pr["labels"], te):
-                P.eq("predict-test-points", a, s0 + p)
+                P.eq("predict-test-points", a, lab_of(p))
             ytrue = [y[int(p)] if P.sym else y[p] for p in te]
-            ypred = [W.uf("forecast", [0, c, s0 + p], "iii>r") for p in te]
+            ypred = [W.uf("forecast", [0, c, lab_of(p)], "iii>r") for p in te]
             a = ytrue + ypred
             P.eq("score-is-metric(y_true,y_pred)", row["score"], W.uf("score_%d" % len(a), a, "r" * len(a) + ">r"))
             if cell["withX"]:
                 P.check("X-train", call["xidx"] is not None and len(call["xidx"]) == len(tr))
                 if call["xidx"] is not None and len(call["xidx"]) == len(tr):
                     for u, p in zip(call["xidx"], tr):
-                        P.eq("X-train", u, s0 + p)
+                        P.eq("X-train", u, lab_of(p))
                 xt = pr["xidx"]
                 P.check("X-test", xt is not None and len(xt) == te[-1] - tr[-1])
                 if xt is not None:
                     for k, u in enumerate(xt):
-                        P.eq("X-test", u, c + 1 + k)
+                        P.eq("X-test", u, lab_of(tr[-1] + 1 + k))
             else:
                 P.check("X-train", call["xidx"] is None and pr["xidx"] is None)
             if inp["return_data"]:
                 ti, tv = row["y_train"]
                 P.check("returned-data", len(ti) == len(tr) and len(row["y_test"][0]) == len(te) and len(row["y_pred"][0]) == len(te))
                 for u, p, v in zip(ti, tr, tv):
-                    P.eq("returned-data", u, s0 + p)
+                    P.eq("returned-data", u, lab_of(p))
                     P.eq("returned-data", v, y[int(p)] if P.sym else y[p])
                 for u, v, w_, p in zip(row["y_test"][0], row["y_test"][1], row["y_pred"][1], te):
-                    P.eq("returned-data", u, s0 + p)
+                    P.eq("returned-data", u, lab_of(p))
                     P.eq("returned-data", v, y[int(p)] if P.sym else y[p])
-                    P.eq("returned-data", w_, W.uf("forecast", [0, c, s0 + p], "iii>r"))
+                    P.eq("returned-data", w_, W.uf("forecast", [0, c, lab_of(p)], "iii>r"))
 
     def signature(self, label, inp, cell):
         return "evaluate/%s" % label
